@@ -337,6 +337,14 @@ pub(crate) fn blend<S: Sample>(
             target_subgrid = target_grid.as_float_mut().unwrap().as_subgrid_mut();
         }
 
+        if clipped_original_frame_region.is_empty() {
+            // No sample of the new frame falls into the output region (and the new grid may be
+            // zero-sized); the base is the result.
+            let _ = target_subgrid;
+            output_grid.append_channel(target_grid, target_region);
+            continue;
+        }
+
         if let Some(idx) = alpha_idx {
             let bit_depth = image_header.metadata.ec_info[idx].bit_depth;
             new_grid.buffer_mut()[idx + color_channels].convert_to_float_modular(bit_depth)?;
